@@ -20,7 +20,8 @@ Inductive perr :=
 | ExpectedCommaOrRightBracketInList | InlineProcedureUsage
 | ExpectedFieldNameInStruct | ExpectedColonAfterFieldName
 | ExpectedCommaOrRightCurlyInStructFieldList | OverflowInNumberLiteral
-| TrailingCharacters | TrailingEqualSign | TrailingEqualSignFunction.
+| TrailingCharacters | TrailingEqualSign | TrailingEqualSignFunction
+| ExpectedIdentifierAfterLet | ExpectedEqualOrColonAfterLetIdentifier | ExpectedLeftParenAfterProcedureName.
 
 Inductive res (A : Type) :=
 | Ok (a : A) (rest : list token)
@@ -354,21 +355,57 @@ Fixpoint expression_d (d : nat) : parser :=
 
 Definition expression : parser := fun ts => expression_d (S (length ts)) ts.
 
-(* Parser::statement / Parser::parse restricted to expression statements:
-   the trees of all statements, or the kind of the first error.  Statements
-   that start with a statement keyword or a decorator are outside the model. *)
+(* Statements of the model: expressions, `let name = e` without type annotation and decorators,
+   and the procedure calls print / assert / assert_eq / type. *)
+Inductive stmt :=
+| StExpr (e : expr)
+| StLet (name : str) (e : expr)
+| StProc (k : kw) (args : list expr).
+
+(* Parser::statement / Parser::parse: the statements, or the kind of the first error.
+   fn / dimension / unit / use / struct definitions, decorators and type annotations are
+   outside the model (explicit Unsupported). *)
 Definition starts_other_statement (ts : list token) : bool :=
   match ts with
-  | TKw KLet :: _ | TKw KFn :: _ | TKw KDimension :: _ | TAt :: _ | TKw KUnit :: _
-  | TKw KUse :: _ | TKw KStruct :: _
-  | TKw KPrint :: _ | TKw KAssert :: _ | TKw KAssertEq :: _ | TKw KType :: _ => true
+  | TKw KFn :: _ | TKw KDimension :: _ | TAt :: _ | TKw KUnit :: _
+  | TKw KUse :: _ | TKw KStruct :: _ => true
   | _ => false
+  end.
+
+Definition is_procedure (k : kw) : bool :=
+  match k with KPrint | KAssert | KAssertEq | KType => true | _ => false end.
+
+(* Parser::parse_variable (after `let`) *)
+Definition parse_variable (ts : list token) : res stmt :=
+  match ts with
+  | TIdent name :: TColon :: _ => Unsupported
+  | TIdent name :: TEqual :: r =>
+      bind (expression (skip_empty_lines r)) (fun e rest => Ok (StLet name e) rest)
+  | TIdent _ :: _ => Err ExpectedEqualOrColonAfterLetIdentifier
+  | _ => Err ExpectedIdentifierAfterLet
+  end.
+
+(* Parser::parse_procedure (after the procedure keyword) *)
+Definition parse_procedure (k : kw) (ts : list token) : res stmt :=
+  match ts with
+  | TLParen :: r =>
+      bind (arguments (expression_d (S (length r))) r) (fun args rest => Ok (StProc k args) rest)
+  | _ => Err ExpectedLeftParenAfterProcedureName
+  end.
+
+Definition statement (ts : list token) : res stmt :=
+  match ts with
+  | TKw KLet :: r => parse_variable r
+  | TKw k :: r =>
+      if is_procedure k then parse_procedure k r
+      else bind (expression ts) (fun e rest => Ok (StExpr e) rest)
+  | _ => bind (expression ts) (fun e rest => Ok (StExpr e) rest)
   end.
 
 Definition last_is_rparen (consumed : list token) : bool :=
   match rev consumed with TRParen :: _ => true | _ => false end.
 
-Fixpoint parse_loop (n : nat) (acc : list expr) (ts : list token) : res (list expr) :=
+Fixpoint parse_loop (n : nat) (acc : list stmt) (ts : list token) : res (list stmt) :=
   match n with
   | O => OutOfFuel
   | S n =>
@@ -377,7 +414,7 @@ Fixpoint parse_loop (n : nat) (acc : list expr) (ts : list token) : res (list ex
       | _ =>
           if starts_other_statement ts then Unsupported
           else
-            match expression ts with
+            match statement ts with
             | Ok e rest =>
                 match rest with
                 | TNewline :: _ => parse_loop n (acc ++ [e]) (skip_empty_lines rest)
@@ -396,5 +433,5 @@ Fixpoint parse_loop (n : nat) (acc : list expr) (ts : list token) : res (list ex
       end
   end.
 
-Definition parse (ts : list token) : res (list expr) :=
+Definition parse (ts : list token) : res (list stmt) :=
   parse_loop (S (length ts)) [] (skip_empty_lines ts).
